@@ -1806,6 +1806,9 @@ class Tensor:
                         "mask": placeholder_mutant_view.creator.where,
                     },
                 )
+                # (as above) the in-place target keeps the constant-flag
+                # of the tensor whose memory is being written to
+                placeholder_mutant_view._constant = inplace_target._constant
 
         # Connect public base tensor to placeholder graph via the mutated placeholder
         # tensor `out`.
